@@ -3,28 +3,42 @@ package rules
 import (
 	"fmt"
 
+	"golang.org/x/tools/go/ssa"
+
 	"scicheck/internal/core"
 )
 
 func init() { Registry["DBG"] = dbg }
 
 func dbg(e *Env) {
-	a := e.anchors()
-	for _, root := range []string{"Task.Execute", "Process.Run"} {
-		fn := e.P.Func(root)
-		if root == "Process.Run" {
-			fn = a.procRun
-		}
-		g := e.XG(fn)
-		fmt.Println("==", root, len(g.Nodes))
-		for _, n := range g.Nodes {
-			if isFSEffect(n) || isStat(n) || isExec(n) || n.IsCallTo("os/exec.Command", "io/ioutil.ReadFile", "path/filepath.Walk") {
-				fmt.Printf("%s  %s\n", core.FuncName(n.Callee), g.Where(n))
-				for i := range n.Call.Args {
-					s := e.argSym(n, i)
-					fmt.Printf("     arg%d: %s\n", i, s.String())
+	p := e.P
+	td := p.Func("Task.TempDir")
+	sy := p.NewSymbolizer(nil)
+	for _, b := range td.Blocks {
+		for _, in := range b.Instrs {
+			if c, ok := in.(*ssa.Call); ok && c.Call.StaticCallee() != nil {
+				nm := c.Call.StaticCallee().String()
+				if nm == "crypto/sha1.Sum" || nm == "strings.Join" {
+					for i, a := range c.Call.Args {
+						fmt.Printf("%s arg%d: %s\n", nm, i, sy.InFunc(td, a))
+					}
 				}
+			}
+			if r, ok := in.(*ssa.Return); ok {
+				fmt.Println("return:", sy.InFunc(td, r.Results[0]))
 			}
 		}
 	}
+	wa := p.Func("Task.writeAuditLogs")
+	for _, b := range wa.Blocks {
+		for _, in := range b.Instrs {
+			switch x := in.(type) {
+			case *ssa.Store:
+				fmt.Printf("store %s := %s   @%s\n", sy.InFunc(wa, x.Addr), sy.InFunc(wa, x.Val), p.InstrPos(in))
+			case *ssa.MapUpdate:
+				fmt.Printf("mapupdate %s[%s] = %s  @%s\n", sy.InFunc(wa, x.Map), sy.InFunc(wa, x.Key), sy.InFunc(wa, x.Value), p.InstrPos(in))
+			}
+		}
+	}
+	_ = core.Top
 }
